@@ -499,8 +499,12 @@ def run(ctx):
     for r in range(reps):
         for k in classes:
             p = prog_of(ctx.rng, k)
-            # fault-free classes: a conversion the design accepts must succeed (oracle:ConvertFailed)
-            p["mustops"] = ["Convert"]
+            # fault-free classes: a conversion the design accepts must succeed (oracle:ConvertFailed) -
+            # for the conversions C13 promises: same or wider data type (a tool that refused a
+            # narrowing / rounding conversion would not break the property)
+            import numpy as np
+            widening = k["dst_dtype"] == "-" or np.can_cast(np.dtype(k["src_dtype"]), np.dtype(k["dst_dtype"]), "safe")
+            p["mustops"] = ["Convert"] if widening else []
             if p["link"] is not None:
                 p["link"] = "%s/%d" % (p["link"], r)      # one interpreter per pair and repetition
             progs.append(p)
